@@ -1,6 +1,7 @@
 import Bmc.Proofs.C13
 import Bmc.Proofs.EndToEnd.ContextC13
 import Bmc.Proofs.C13Source
+import Bmc.Proofs.SourcePins
 #print axioms Bmc.Proofs.C13.returns_by_deadline
 #print axioms Bmc.Proofs.C13.expired_context
 #print axioms Bmc.Proofs.C13.no_false_success
@@ -15,3 +16,4 @@ import Bmc.Proofs.C13Source
 #print axioms Bmc.Proofs.EndToEnd.slExpected_le
 #print axioms Bmc.Proofs.EndToEnd.generated_sessionless_loop_stops_with_context
 #print axioms Bmc.Proofs.C13.transport_source
+#print axioms Bmc.Proofs.SourcePins.pinned_sources
